@@ -118,8 +118,6 @@ void splinetable<Alloc>::convolve(const uint32_t dim, const double* conv_knots, 
 	//space for the new ones. Most of the old knot data we still need, so we
 	//have to make temporary buffers for it.
 	
-	deallocate(this->coefficients,this->naxes[0]*this->strides[0]);
-	
 	std::unique_ptr<std::unique_ptr<double[]>[]> knots_store(new std::unique_ptr<double[]>[ndim]);
 	for (uint32_t i = 0; i < ndim; i++) {
 		//copy the old knots, except in the convolution dimension
@@ -127,7 +125,22 @@ void splinetable<Alloc>::convolve(const uint32_t dim, const double* conv_knots, 
 			knots_store[i].reset(new double[nknots[i]]);
 			std::copy(knots[i],knots[i]+nknots[i],knots_store[i].get());
 		}
+	}
+	
+	//From here on the table is incomplete until its new storage has been
+	//allocated. If that fails, leave it empty rather than with pointers to
+	//storage which has already been returned.
+	struct convolve_guard{
+		splinetable& table;
+		bool armed;
+		~convolve_guard(){ if(armed) table.release(); }
+	} guard{*this,true};
+	
+	deallocate(this->coefficients,this->naxes[0]*this->strides[0]);
+	this->coefficients=nullptr;
+	for (uint32_t i = 0; i < ndim; i++) {
 		deallocate(knots[i]-order[i],nknots[i]+2*order[i]);
+		knots[i]=nullptr;
 	}
 	
 	this->nknots[dim] = n_rho;
@@ -152,6 +165,7 @@ void splinetable<Alloc>::convolve(const uint32_t dim, const double* conv_knots, 
 	 * that the surface will remain monotonic over its full extent.
 	 */
 	this->extents[dim][1] += conv_knots[0];
+	guard.armed=false;
 }
 
 } //namespace photospline
